@@ -144,6 +144,10 @@ def wrapped(draw, ref, family=None, pred=None, exclude=(), vector=True, dg=True,
     if k <= 4 or glob:
         return base
     if k == 5 and vector and scalar:
+        # explicit component counts different from the spatial dimension are documented and rarely used
+        nd = draw(st.sampled_from([None, None, 1, 2, 3, 4]))
+        if nd is not None:
+            return {'cls': 'ElementVector', 'of': base, 'dim': nd}
         return {'cls': 'ElementVector', 'of': base}
     if k == 6 and dg:
         return {'cls': 'ElementDG', 'of': base}
@@ -164,7 +168,7 @@ def wrapped(draw, ref, family=None, pred=None, exclude=(), vector=True, dg=True,
 def label(desc):
     c = desc['cls']
     if c == 'ElementVector':
-        return f"Vector({label(desc['of'])})"
+        return f"Vector({label(desc['of'])}{',' + str(desc['dim']) if 'dim' in desc else ''})"
     if c == 'ElementDG':
         return f"DG({label(desc['of'])})"
     if c == 'ElementComposite':
